@@ -63,7 +63,7 @@ class QsRun:
     replays `script`.  The model is the observer; Violations propagate out of step()."""
 
     def __init__(self, data_dir, rng=None, config=None, script=None, choices=None,
-                 whitebox=True, model_cls=QsModel):
+                 whitebox=True, model_cls=QsModel, own=None):
         self.data_dir = data_dir
         pk = os.path.join(data_dir, "workq.pickle")
         if os.path.exists(pk):
@@ -71,7 +71,7 @@ class QsRun:
         self.rng = rng
         self.config = config
         self.script = script
-        self.model = model_cls(whitebox=whitebox)
+        self.model = model_cls(whitebox=whitebox, own=own)
         self.sim = QsSim(data_dir, rng=random.Random(rng.getrandbits(64)) if rng else None,
                          choices=choices, observer=self.model)
         self.model.sim = self.sim
@@ -458,6 +458,7 @@ class QsRun:
             "sim_seconds": sim.clock.mono,
             "hub_errors": list(sim.hub_errors),
             "max_alternatives": sim.random.max_alternatives,
+            "foreign_seen": dict(model.foreign_seen),
         }
 
 
